@@ -12,7 +12,6 @@ use s3s::{S3Request, S3Response};
 
 use std::collections::VecDeque;
 use std::io;
-use std::ops::Neg;
 use std::ops::Not;
 use std::path::Component;
 use std::path::{Path, PathBuf};
@@ -22,7 +21,6 @@ use tokio::io::AsyncSeekExt;
 use tokio_util::io::ReaderStream;
 
 use futures::TryStreamExt;
-use numeric_cast::NumericCast;
 use stdx::default::default;
 use tracing::debug;
 use uuid::Uuid;
@@ -218,24 +216,21 @@ impl S3 for FileSystem {
             None => (file_len, None),
             Some(range) => {
                 let file_range = range.check(file_len)?;
+                if file_range.is_empty() {
+                    // a suffix range of an empty object selects nothing: there is no `Content-Range` for it
+                    return Err(s3_error!(InvalidRange));
+                }
                 let content_length = file_range.end - file_range.start;
                 let content_range = fmt_content_range(file_range.start, file_range.end - 1, file_len);
+
+                // start at the first selected byte (a suffix longer than the object selects the whole object)
+                try_!(file.seek(io::SeekFrom::Start(file_range.start)).await);
+
                 (content_length, Some(content_range))
             }
         };
         let content_length_usize = try_!(usize::try_from(content_length));
         let content_length_i64 = try_!(i64::try_from(content_length));
-
-        match input.range {
-            Some(Range::Int { first, .. }) => {
-                try_!(file.seek(io::SeekFrom::Start(first)).await);
-            }
-            Some(Range::Suffix { length }) => {
-                let neg_offset = length.numeric_cast::<i64>().neg();
-                try_!(file.seek(io::SeekFrom::End(neg_offset)).await);
-            }
-            None => {}
-        }
 
         let body = bytes_stream(ReaderStream::with_capacity(file, 4096), content_length_usize);
 
